@@ -574,6 +574,7 @@ func r01_7(c *Ctx, rule string) {
 var r018Exceptions = map[string]string{
 	"fsutil.rewriteMetadata/github.com/containerd/continuity/sysx.LSetxattr": "xattrs are applied best effort by design (unprivileged receivers, unsupported filesystems)",
 	"fsutil.(*DiskWriter).HandleChange/os.Lstat":                            "ENOENT means the entry does not exist yet (create instead of replace); every other error is returned (R03.7 checks the decision is Lstat-based)",
+	"fsutil.renameFile/os.Lstat":                                            "windows: ENOENT means there is nothing to replace; every other error is returned",
 	"fsutil.(*DiskWriter).HandleChange/os.Mkdir":                            "EEXIST from a concurrent creator retries the whole change; every other error is returned",
 	"fsutil.(*lazyFileWriter).Write/os.OpenFile#1":                          "a permission error is retried after chmod; the final error is returned",
 	"fsutil.(*lazyFileWriter).Write/os.Stat":                                "part of the permission retry: on failure the original open error is returned",
